@@ -65,7 +65,7 @@ class Ctx:
     # ---------------------------------------------------------------- flattened views
     # Role anchors that rules name explicitly: never inlined, so that a rule can still point at the call.
     ANCHORS = re.compile(r"::(ack|validate_packet_size|handle_connack|session_expired|is_reconnect|reset_session|"
-                         r"linear_search_by_key|tx_action_id|rx_action_id|next_packet_id|handle_packet|handle_message|set_up|new)$")
+                         r"linear_search_by_key|tx_action_id|rx_action_id|handle_packet|handle_message|set_up|new)$")
 
     @staticmethod
     def layer(path):
